@@ -118,7 +118,7 @@ Proof.
   destruct (step fx p sc LIdleExit) as [sd|] eqn:ED; [|discriminate].
   assert (PB : st_phase sb = PTop).
   { simpl in EB. unfold do_idle_enter in EB. destruct (st_phase sa); try discriminate.
-    destruct (_ && _); [|discriminate]. inversion EB; subst sb. reflexivity. }
+    destruct (existsb _ _); [|discriminate]. inversion EB; subst sb. reflexivity. }
   assert (PC : st_phase sc = PDrain).
   { simpl in ED. unfold do_idle_exit in ED. destruct (st_phase sc); try discriminate. reflexivity. }
   destruct (deliveries mid) as [|w dl] eqn:DM.
@@ -170,7 +170,7 @@ Proof.
   apply run_app in R as [sc [Rc R]].
   assert (PB : st_phase sb = PTop).
   { simpl in EB. unfold do_idle_enter in EB. destruct (st_phase sa); try discriminate.
-    destruct (_ && _); [|discriminate]. inversion EB; subst sb. reflexivity. }
+    destruct (existsb _ _); [|discriminate]. inversion EB; subst sb. reflexivity. }
   assert (Rbc : run fx p init (pre ++ LIdleEnter :: mid) = Some sc).
   { apply run_app. exists sa. split; auto. cbn [run]. now rewrite EB. }
   destruct (delivered_is_created_promise _ sc w Rbc) as [CR PR].
@@ -202,7 +202,7 @@ Proof.
     destruct (st_chan s w); [|discriminate]. destruct (negb _); [|discriminate]. inversion H; subst s'. simpl. rewrite PH. simpl. lia.
   - unfold do_abandon in H. destruct (st_phase s) eqn:PH; try discriminate. destruct (live p s w); [|discriminate].
     inversion H; subst s'. simpl. rewrite PH. simpl. lia.
-  - unfold do_idle_enter in H. destruct (st_phase s) eqn:PH; try discriminate. destruct (_ && _); [|discriminate].
+  - unfold do_idle_enter in H. destruct (st_phase s) eqn:PH; try discriminate. destruct (existsb _ _); [|discriminate].
     inversion H; subst s'. simpl. lia.
   - unfold do_flush in H.
     assert (PHH : st_phase s = PTop \/ st_phase s = PFlush) by (destruct (st_phase s); try discriminate; auto).
